@@ -53,6 +53,8 @@ pub enum FinalizationKind {
     ImplicitlyFinalized(Slot, BlockHash),
     /// Slot was skipped as a consequence of a finalization.
     ImplicitlySkipped(Slot),
+    /// A block and its parent were registered with the pool (no finality implied).
+    BlockRegistered(Slot, BlockHash, Slot, BlockHash),
 }
 
 /// One entry of the finalization log.
